@@ -1,133 +1,46 @@
 /-
   C17 — property theorems (only property theorems, witnesses and non-vacuity examples live here;
-  helper lemmas are in `FwdVerif/Lemmas/C17*.lean`).
+  helper lemmas are in `FwdVerif/Lemmas/C17Main.lean`).
 
-  Model: `FwdVerif/Model/C17.lean` — `fromList` joins the rules' *source texts* with `|` and compiles
-  the text (lexer, operator stack, Go's flag scoping, search semantics), exactly as
-  `ruleset.NewRegexpMatcher` does.  `Rule.search r s` is the rule taken on its own.
+  Model: `FwdVerif/Model/C17.lean` — `fromList` keeps one compiled expression per rule (lexer,
+  operator stack, Go's flag scoping, search semantics, all applied to ONE rule at a time) and
+  `matches` evaluates every rule on its own, exactly as the repaired `ruleset.RegexpMatcher` does.
+  `Rule.search r s` is the rule taken on its own.
 
-  `Valid l`     : every rule is a valid, non-empty regular expression (the property's quantifier).
-  `LeakFree l`  : no include rule but the last include rule (same for excludes) ends with flags other
-                  than the default ones, i.e. has an unscoped flag group at top level.
-  `Spec l s`    : (∃ r ∈ includes l, r.search s) ∧ ¬ ∃ r ∈ excludes l, r.search s.
+  `Valid l`  : every rule is a valid, non-empty regular expression (the property's quantifier).
+  `Spec l s` : (∃ r ∈ includes l, r.search s) ∧ ¬ ∃ r ∈ excludes l, r.search s.
 -/
 import FwdVerif.Lemmas.C17Main
 
 namespace FwdVerif
 namespace C17
 
+/-! ### The property -/
+
 /-- The property at full strength: for every valid list, the matcher built by the code answers
-    the union of the includes minus the excludes.  FALSE of the unchanged code
-    (`c17_flag_leak_witness`, defect F10); true under `LeakFree` (`c17_union_partial`) and true
-    unconditionally for the repaired construction (`c17_union_wrapped`). -/
+    the union of the includes minus the excludes.  Proved below (`c17_union`); it was FALSE of the
+    code before the repair of F10/F26 (see the last section). -/
 def c17_full_statement : Prop :=
   ∀ (l : List Rule) (m : Matcher) (s : Bytes), Valid l → fromList l = .ok m →
     (m.matches s = true ↔ Spec l s)
 
-/-- union of includes minus excludes, for every valid list without a flag leak and every subject -/
-theorem c17_union_partial {l : List Rule} {m : Matcher} (hv : Valid l) (hl : LeakFree l)
-    (h : fromList l = .ok m) (s : Bytes) :
+/-- union of includes minus excludes, for every valid list — whatever inline flags, anchors or
+    alternations its rules contain — and every subject -/
+theorem c17_union {l : List Rule} {m : Matcher} (_hv : Valid l) (h : fromList l = .ok m) (s : Bytes) :
     m.matches s = true ↔
       (∃ r ∈ includes l, r.search s = true) ∧ ¬ ∃ r ∈ excludes l, r.search s = true := by
-  obtain ⟨hinv, hraw⟩ := fromList_spec hv hl h s
+  obtain ⟨hinv, hraw⟩ := fromList_spec h s
   simp only [Matcher.matches, hinv, hraw]
   exact specMatch_iff l s
 
-/-- the rule pair of F10: `(?i)foo` followed by `bar` (byte strings are written out so that the
-    kernel evaluates the witnesses by `decide`; `[66, 65, 82]` below is the subject `BAR`) -/
-def leakList : List Rule := [⟨[40, 63, 105, 41, 102, 111, 111], false⟩, ⟨[98, 97, 114], false⟩]
+/-- the full-strength statement holds of the model of the repaired code -/
+theorem c17_union_full : c17_full_statement := fun _ _ s hv h => c17_union hv h s
 
-/-- the hypothesis `LeakFree` is needed: on `(?i)foo, bar` the code's matcher accepts `BAR`,
-    which no rule matches on its own (kernel-evaluated on the model) -/
-theorem c17_flag_leak_witness : ¬ c17_full_statement := by
-  intro hfull
-  have hv : Valid leakList := by decide
-  have hm : ∃ m, fromList leakList = .ok m ∧ m.matches ([66, 65, 82]) = true := by
-    have hd : matchesOf leakList [66, 65, 82] = some true := by decide
-    unfold matchesOf at hd
-    cases h : fromList leakList with
-    | ok m => exact ⟨m, rfl, by simpa [h] using hd⟩
-    | noInclude => simp [h] at hd
-    | panic e => simp [h] at hd
-  obtain ⟨m, hm1, hm2⟩ := hm
-  have := (hfull leakList m ([66, 65, 82]) hv hm1).mp hm2
-  revert this
-  decide
-
-/-- the answer of the code's matcher depends on the order of the rules (same two rules, swapped) -/
-theorem c17_order_witness :
-    ∃ m m', fromList leakList = .ok m ∧ fromList leakList.reverse = .ok m' ∧
-      m.matches ([66, 65, 82]) ≠ m'.matches ([66, 65, 82]) := by
-  have h1 : matchesOf leakList [66, 65, 82] = some true := by decide
-  have h2 : matchesOf leakList.reverse [66, 65, 82] = some false := by decide
-  unfold matchesOf at h1 h2
-  cases e1 : fromList leakList with
-  | ok m =>
-    cases e2 : fromList leakList.reverse with
-    | ok m' =>
-      refine ⟨m, m', rfl, rfl, ?_⟩
-      simp only [e1, e2, Option.some.injEq] at h1 h2
-      simp [h1, h2]
-    | noInclude => simp [e2] at h2
-    | panic e => simp [e2] at h2
-  | noInclude => simp [e1] at h1
-  | panic e => simp [e1] at h1
-
-/-- candidate repair: with every source wrapped in `(?:…)` before joining the statement holds for
-    every valid list — a group restores the flags, so nothing leaks -/
-theorem c17_union_wrapped {l : List Rule} {m : Matcher} (hv : Valid l)
-    (h : fromList (wrapAll l) = .ok m) (s : Bytes) :
-    m.matches s = true ↔
-      (∃ r ∈ includes l, r.search s = true) ∧ ¬ ∃ r ∈ excludes l, r.search s = true := by
-  have hv' : ∀ r ∈ l, validSrc r.src = true := fun r hr => (hv r hr).1
-  obtain ⟨hinv, hraw⟩ :=
-    fromList_spec (valid_wrapAll hv') (leakFree_of_flagNeutral (neutral_wrapAll hv')) h s
-  simp only [Matcher.matches, hinv, hraw, specMatch_wrapAll l hv' s]
-  exact specMatch_iff l s
-
-/-- the hypothesis in its syntactic reading: a pattern whose top-level items contain no flag group
-    is flag-neutral -/
-theorem c17_neutral_of_no_top_flag_group {src : Bytes} {bs : List (List Raw)}
-    (h : branchesOf src = .ok bs) (hf : topFlagFree bs = true) : neutralSrc src = true := by
-  have one : ∀ (x : Raw) (f : Flags), x.noTopFlags = true → flagsAfter x f = f := by
-    intro x
-    induction x with
-    | flags on off => intro f hx; simp [Raw.noTopFlags] at hx
-    | cat a b iha ihb =>
-      intro f hx
-      simp only [Raw.noTopFlags, Bool.and_eq_true] at hx
-      simp only [flagsAfter]; rw [iha f hx.1, ihb f hx.2]
-    | alt a b iha ihb =>
-      intro f hx
-      simp only [Raw.noTopFlags, Bool.and_eq_true] at hx
-      simp only [flagsAfter]; rw [iha f hx.1, ihb f hx.2]
-    | _ => intro f _; rfl
-  have key : ∀ (items : List Raw) (f : Flags), items.all Raw.noTopFlags = true →
-      flagsAfter (mkCat items) f = f := by
-    intro items
-    induction items with
-    | nil => intro f _; rfl
-    | cons x xs ih =>
-      intro f hx
-      simp only [List.all_cons, Bool.and_eq_true] at hx
-      simp only [mkCat, flagsAfter]
-      rw [one x f hx.1]
-      exact ih f hx.2
-  have key2 : ∀ (bs : List (List Raw)) (f : Flags), topFlagFree bs = true →
-      flagsAfter (mkAlt bs) f = f := by
-    intro bs
-    induction bs with
-    | nil => intro f _; rfl
-    | cons x xs ih =>
-      intro f hx
-      simp only [topFlagFree, List.all_cons, Bool.and_eq_true] at hx
-      cases xs with
-      | nil => simpa [mkAlt] using key x f hx.1
-      | cons y ys =>
-        simp only [mkAlt, flagsAfter]
-        rw [key x f hx.1]
-        exact ih f (by simpa [topFlagFree] using hx.2)
-  simp [neutralSrc, h, key2 bs dflt hf]
+/-- … and the premise of `c17_union` is satisfiable by every valid list that has an include rule:
+    the code does build a matcher for it -/
+theorem c17_constructs {l : List Rule} (hv : Valid l) (hne : includes l ≠ []) :
+    ∃ m, fromList l = .ok m :=
+  fromList_ok_of_valid hv hne
 
 /-- `Inverse` negates, for every matcher and subject -/
 theorem c17_inverse_negates (m : Matcher) (s : Bytes) : m.inv.matches s = !m.matches s := by
@@ -137,33 +50,24 @@ theorem c17_inverse_negates (m : Matcher) (s : Bytes) : m.inv.matches s = !m.mat
 theorem c17_inverse_involutive (m : Matcher) : m.inv.inv = m := by
   cases m; simp [Matcher.inv]
 
-/-- the order of the rules does not matter when every rule is flag-neutral -/
-theorem c17_perm_invariant {l l' : List Rule} {m m' : Matcher} (hv : Valid l) (hn : FlagNeutral l)
+/-- the order of the rules does not matter, whatever the rules contain -/
+theorem c17_perm_invariant {l l' : List Rule} {m m' : Matcher} (_hv : Valid l)
     (hp : l.Perm l') (h : fromList l = .ok m) (h' : fromList l' = .ok m') (s : Bytes) :
     m.matches s = m'.matches s := by
-  have hv' : Valid l' := fun r hr => hv r (hp.mem_iff.mpr hr)
-  have hn' : FlagNeutral l' := fun r hr => hn r (hp.mem_iff.mpr hr)
-  obtain ⟨hi, hr⟩ := fromList_spec hv (leakFree_of_flagNeutral hn) h s
-  obtain ⟨hi', hr'⟩ := fromList_spec hv' (leakFree_of_flagNeutral hn') h' s
+  obtain ⟨hi, hr⟩ := fromList_spec h s
+  obtain ⟨hi', hr'⟩ := fromList_spec h' s
   simp only [Matcher.matches, hi, hi', hr, hr', specMatch_perm hp s]
 
-/-- with the repair the order never matters -/
-theorem c17_perm_invariant_wrapped {l l' : List Rule} {m m' : Matcher} (hv : Valid l)
-    (hp : l.Perm l') (h : fromList (wrapAll l) = .ok m) (h' : fromList (wrapAll l') = .ok m')
-    (s : Bytes) : m.matches s = m'.matches s := by
-  have hv' : Valid l' := fun r hr => hv r (hp.mem_iff.mpr hr)
-  have e1 := c17_union_wrapped hv h s
-  have e2 := c17_union_wrapped hv' h' s
-  have : Spec l s ↔ Spec l' s := by
-    rw [← specMatch_iff, ← specMatch_iff, specMatch_perm hp s]
-  rw [Bool.eq_iff_iff, e1, e2]
-  exact this
+/-- … and a permutation of a valid list that yields a matcher is valid and yields a matcher too -/
+theorem c17_perm_constructs {l l' : List Rule} {m : Matcher} (hv : Valid l) (hp : l.Perm l')
+    (h : fromList l = .ok m) : Valid l' ∧ ∃ m', fromList l' = .ok m' :=
+  ⟨fun r hr => hv r (hp.mem_iff.mpr hr), fromList_ok_perm hp h⟩
 
 /-- exclusion takes precedence: a host matched by an exclude rule is never matched by the list -/
-theorem c17_exclude_wins {l : List Rule} {m : Matcher} (hv : Valid l) (hl : LeakFree l)
+theorem c17_exclude_wins {l : List Rule} {m : Matcher} (hv : Valid l)
     (h : fromList l = .ok m) (s : Bytes) (hx : ∃ r ∈ excludes l, r.search s = true) :
     m.matches s = false := by
-  have := c17_union_partial hv hl h s
+  have := c17_union hv h s
   cases hm : m.matches s with
   | false => rfl
   | true => exact absurd hx (this.mp hm).2
@@ -172,16 +76,10 @@ theorem c17_exclude_wins {l : List Rule} {m : Matcher} (hv : Valid l) (hl : Leak
 theorem c17_no_include_error (l : List Rule) : fromList l = .noInclude ↔ includes l = [] :=
   fromList_noInclude l
 
-/-- building a matcher from valid leak-free rules never panics (`regexp.MustCompile` on the joined text) -/
-theorem c17_no_panic {l : List Rule} (hv : Valid l) (hl : LeakFree l) (e : Err) :
-    fromList l ≠ .panic e :=
-  fromList_no_panic hv hl e
-
-/-- the joined text of valid wrapped rules always compiles, whatever flags the rules use -/
-theorem c17_no_panic_wrapped {l : List Rule} (hv : Valid l) (e : Err) :
-    fromList (wrapAll l) ≠ .panic e :=
-  fromList_no_panic (valid_wrapAll fun r hr => (hv r hr).1)
-    (leakFree_of_flagNeutral (neutral_wrapAll fun r hr => (hv r hr).1)) e
+/-- building a matcher from valid rules never panics: nothing is compiled at construction time
+    (the only `panic` of the model stands for a slice entry that is no regular expression) -/
+theorem c17_no_panic {l : List Rule} (hv : Valid l) (e : Err) : fromList l ≠ .panic e :=
+  fromList_no_panic hv e
 
 /-- the `-` prefix: one leading `-` marks an exclude rule and is not part of the pattern; anything
     else is an include rule with the text unchanged; printing gives the text back -/
@@ -213,20 +111,81 @@ theorem c17_list_partition (l : List Rule) (r : Rule) :
 def sampleList : List Rule :=
   [⟨[94, 40, 46, 42, 92, 46, 41, 63, 101, 120, 97, 109, 112, 108, 101, 92, 46, 99, 111, 109, 36], false⟩, ⟨[94, 119, 119, 119, 92, 46], true⟩, ⟨[40, 63, 105, 58, 70, 111, 111, 41, 124, 98, 97, 91, 114, 122, 93], false⟩]
 
+/-- the rule pair of F10: `(?i)foo` followed by `bar` (byte strings are written out so that the
+    kernel evaluates the examples by `decide`; `[66, 65, 82]` below is the subject `BAR`) -/
+def leakList : List Rule := [⟨[40, 63, 105, 41, 102, 111, 111], false⟩, ⟨[98, 97, 114], false⟩]
+
+/-- F10 in the exclude sub-list: `.*`, `-(?i)internal`, `-secret` -/
+def leakExclList : List Rule :=
+  [⟨[46, 42], false⟩, ⟨[40, 63, 105, 41, 105, 110, 116, 101, 114, 110, 97, 108], true⟩, ⟨[115, 101, 99, 114, 101, 116], true⟩]
+
+/-- the rule pair of F26: `B.` and `(?i:b.)` -/
+def foldList : List Rule := [⟨[66, 46], false⟩, ⟨[40, 63, 105, 58, 98, 46, 41], false⟩]
+
+-- c17_union, c17_exclude_wins: hypotheses hold of a realistic list, and of the lists on which the
+-- pre-repair code failed
 example : Valid sampleList := by decide
-example : LeakFree sampleList := by decide
-example : FlagNeutral sampleList := by decide
+example : Valid leakList ∧ Valid leakExclList ∧ Valid foldList := by decide
 -- a.example.com ✓, www.example.com excluded, FOO ✓ (scoped flag), BAZ ✗ (the scoped flag does not leak)
 example : matchesOf sampleList [97, 46, 101, 120, 97, 109, 112, 108, 101, 46, 99, 111, 109] = some true ∧
     matchesOf sampleList [119, 119, 119, 46, 101, 120, 97, 109, 112, 108, 101, 46, 99, 111, 109] = some false ∧
     matchesOf sampleList [70, 79, 79] = some true ∧ matchesOf sampleList [66, 65, 90] = some false := by decide
--- the leaking list is valid (so only `LeakFree` separates it from the theorem) and not leak-free
-example : Valid leakList ∧ ¬ LeakFree leakList := by decide
--- wrapped, the leaking list behaves as the property demands
-example : matchesOf (wrapAll leakList) [66, 65, 82] = some false ∧
-    matchesOf (wrapAll leakList) [70, 79, 79] = some true := by decide
+example : ∃ r ∈ excludes sampleList,
+    r.search [119, 119, 119, 46, 101, 120, 97, 109, 112, 108, 101, 46, 99, 111, 109] = true := by decide
+-- `(?i)foo`,`bar`: BAR ✗ bar ✓ FOO ✓ — the unscoped flag of the first rule stays inside that rule
+example : matchesOf leakList [66, 65, 82] = some false ∧ matchesOf leakList [98, 97, 114] = some true ∧
+    matchesOf leakList [70, 79, 79] = some true := by decide
+-- `.*`,`-(?i)internal`,`-secret`: SECRET is not excluded, secret and Internal are
+example : matchesOf leakExclList [83, 69, 67, 82, 69, 84] = some true ∧
+    matchesOf leakExclList [115, 101, 99, 114, 101, 116] = some false ∧
+    matchesOf leakExclList [73, 110, 116, 101, 114, 110, 97, 108] = some false := by decide
+-- `B.`,`(?i:b.)`: bx ✓ Bx ✓ ax ✗
+example : matchesOf foldList [98, 120] = some true ∧ matchesOf foldList [66, 120] = some true ∧
+    matchesOf foldList [97, 120] = some false := by decide
+-- c17_constructs: the valid lists have an include rule
+example : includes sampleList ≠ [] ∧ includes leakList ≠ [] := by decide
+-- c17_perm_invariant: a valid list, a permutation of it, both build, same answers in both orders
+example : leakList.Perm leakList.reverse := by decide
+example : matchesOf leakList.reverse [66, 65, 82] = some false ∧
+    matchesOf leakList.reverse [70, 79, 79] = some true := by decide
+-- c17_inverse_negates / c17_inverse_involutive on a built matcher
+example : ∃ m, fromList sampleList = .ok m ∧ m.inv.matches [70, 79, 79] = false ∧ m.inv.inv.matches [70, 79, 79] = true := by
+  cases h : fromList sampleList with
+  | ok m =>
+    have h1 : matchesOf sampleList [70, 79, 79] = some true := by decide
+    simp only [matchesOf, h, Option.some.injEq] at h1
+    exact ⟨m, rfl, by simp [c17_inverse_negates, h1], by simp [c17_inverse_involutive, h1]⟩
+  | noInclude => exact absurd ((c17_no_include_error _).mp h) (by decide)
+  | panic e => exact absurd h (c17_no_panic (by decide) e)
+-- c17_dash_partition, c17_no_include_error, c17_list_partition
 example : splitItem ([45, 102, 111, 111]) = ⟨[102, 111, 111], true⟩ := by decide
 example : fromList [⟨[102, 111, 111], true⟩] = .noInclude ↔ True := by simp [c17_no_include_error, includes]
+example : (⟨[94, 119, 119, 119, 92, 46], true⟩ : Rule) ∈ excludes sampleList := by decide
+-- c17_no_panic: also outside the property's quantifier nothing is compiled at construction time —
+-- a list whose only include rule is the EMPTY pattern builds and (empty expression) matches everything
+example : matchesOf [⟨[], false⟩] [97] = some true := by decide
+
+/-! ### Why the rules must not be joined (the PRE-REPAIR construction, F10)
+
+The statements of this section are about `joinSrc`/`joinedSearch` — the construction the code used
+before the repair (sources joined with `|`, the joined text compiled as one expression) — and NOT
+about `fromList`.  They are kept as kernel-checked regression witnesses: in Go's syntax an unscoped
+flag group stays in force across `|`, so a joined expression is not the union of its rules and
+depends on their order.  (F26 — `regexp/syntax` factoring `B.|(?i:b.)` into the case-sensitive
+`B(?:.|.)` — is a deviation of the library from the modelled semantics and has no witness in the
+model; its witness is the corpus case `corpus/C17/f26-regexp-fold-factor.json` on the real code.) -/
+
+/-- joined, `(?i)foo|bar` accepts `BAR`, which neither rule matches on its own — and which the
+    per-rule matcher of the repaired code rejects -/
+theorem c17_joined_flag_leak_witness :
+    joinedSearch (leakList.map (·.src)) [66, 65, 82] = true ∧
+      (∀ r ∈ leakList, r.search [66, 65, 82] = false) ∧ matchesOf leakList [66, 65, 82] = some false := by
+  decide
+
+/-- the answer of the joined expression depends on the order of the same two rules -/
+theorem c17_joined_order_witness :
+    joinedSearch (leakList.map (·.src)) [66, 65, 82] ≠ joinedSearch (leakList.reverse.map (·.src)) [66, 65, 82] := by
+  decide
 
 end C17
 end FwdVerif
